@@ -171,3 +171,24 @@ Lemma where_no_range_l fa tab p rows : range_pred p = None ->
 Proof.
   intros H. unfold where_chunks. rewrite H. rewrite filter_spec_l. now rewrite scan_rows.
 Qed.
+
+(** * clauses in order: WHERE, DISTINCT, SKIP, LIMIT stacked on one input *)
+Lemma distinct_out_wf cs : Forall small_chunk cs -> Forall chunk_wf (drain_distinct cs).
+Proof.
+  intros W. unfold drain_distinct.
+  apply (drain_st_all distinct_next (fun _ cs => Forall small_chunk cs) (fun seen cs => dedup_from seen (rows_of cs))).
+  - intros seen cs0 c seen' rest W0 H. destruct (distinct_next_some _ _ _ _ _ W0 H) as (A & B & C). auto.
+  - intros seen cs0. revert seen. induction cs0 as [|c0 rest0 IH]; intros seen c seen' rest W0; [discriminate|].
+    cbn [distinct_next]. destruct (distinct_chunk 2048 (lrows c0) seen) as [o s] eqn:E. destruct o as [|r o].
+    + inversion W0; subst. eauto.
+    + intros H. injection H as <- _ _. exact I.
+  - exact W.
+Qed.
+Lemma clauses_in_order_l fa envf p s n cs : Forall small_chunk cs ->
+  rows_of (drain_limit n (drain_skip s (drain_distinct (drain_filter fa envf p cs))))
+  = firstn (Z.to_nat n) (skipn (Z.to_nat s) (dedup_from [] (filter (row_passes fa envf p) (rows_of cs)))).
+Proof.
+  intros W. pose proof (filter_out_small fa envf p cs W) as W1.
+  rewrite skip_limit_spec_l by (apply distinct_out_wf, W1).
+  now rewrite distinct_spec_l, filter_spec_l by exact W1.
+Qed.
